@@ -1,4 +1,4 @@
 #!/bin/bash
-# development helper: run every neutral refactoring under /tmp/seed/N*/NEUTRAL and /tmp/seed/NX/*.diff through all 20 checks (parallel)
+# development helper: run every neutral refactoring under /tmp/seed/N*/NEUTRAL and /tmp/seed/NX/*.diff through all 20 checks
 cd /verif
-ls /tmp/seed/N*/NEUTRAL/*/patch.diff /tmp/seed/NX/*.diff 2>/dev/null | xargs -P ${1:-5} -I{} sh -c 'echo "== {}: $(bin/rcheck -try-patch {} | tr "\n" " " | cut -c1-300)"' | sort
+ls /tmp/seed/N*/NEUTRAL/*/patch.diff /tmp/seed/NX/*.diff 2>/dev/null | xargs -P ${1:-3} -I{} sh -c 'echo "== {}: $(bin/rcheck -try-patch {} | tr "\n" " " | cut -c1-300)"'
